@@ -13,7 +13,7 @@ the current source of `Session::handle_rx` is the model's `sessionHandleRx` (whi
 particular every early exit (parser rejects, oversized on RXC, `next_fcnt_down` refuses, MIC does not
 verify) returns `NoUpdate` with the session, configuration, region, buffer and downlink queue it was
 given; see `C05.tieA_handle_rx_accept`.  Builder X: for downlink-typed frames (`hup`); an uplink-typed frame is the
-further early exit `tieA_handle_rx_uplink_typed` (a rejected frame for C07: nothing changes).  Proved in `Props/TieA/HandleRx.lean`.  Builder S: stated for the regenerated
+further early exit `tieA_handle_rx_uplink_typed` (a rejected frame for C07: nothing changes).  Builder Y: and carrying the session's own DevAddr if it passes the size test (`haddr`); a fitting frame addressed to another device is the early exit `tieA_handle_rx_other_devaddr` (`NoUpdate`, nothing changes; an oversized one ends the Class A procedure whatever its address).  Proved in `Props/TieA/HandleRx.lean`.  Builder S: stated for the regenerated
 `handle_downlink_macs` (`TieA.Rx.Full.genOps`) on every command stream, no simulation hypothesis
 (`Props/TieA/HandleRxFull.lean`). -/
 theorem tieA_handle_rx_accept
@@ -21,7 +21,7 @@ theorem tieA_handle_rx_accept
     (rx : Gen.SessionRx.RadioBuffer) (dl : List Gen.SessionRx.Downlink) (maxp snr : Int) (ign : Bool)
     (e : Gen.SessionRx.EncryptedDataPayload)
     (hparse : rx.as_mut_for_read.parse = some e) (hup : e.is_uplink = false)
-    (haddr : e.fhdr.dev_addr = gs.devaddr)
+    (haddr : ¬ (e.as_bytes.length : Int) > maxp + 5 → e.fhdr.dev_addr = gs.devaddr)
     (hw : TieA.Rx.SessWF gs) (hmax : 0 ≤ maxp ∧ maxp ≤ 255) (hwire : 0 ≤ e.fhdr.fcnt)
     (hdec : ∀ f, Gen.SessionRx.next_fcnt_down gs.fcnt_down e.fhdr.fcnt = some f → e.validate_mic (TieA.Rx.nwkOf gs) f = true →
       ∃ d, rx.as_mut_for_read.decrypt_in_place (some (TieA.Rx.nwkOf gs)) (some (TieA.Rx.appOf gs)) f = some d ∧ TieA.Rx.DecWF TieA.Rx.Full.Stream d) :
